@@ -510,9 +510,14 @@ fn random_index(rng: &mut Rng, len: usize, kind: u64) -> Value {
 
 /// A sorted section around the 64 KiB boundary where the update section of the file is aligned
 /// (40 bytes of headers + 18 bytes per entry: 3638 entries end below it, 3639 above), observed at few points.
-fn big_index(rng: &mut Rng) -> Value {
+fn big_index(rng: &mut Rng, idx: u64) -> Value {
     let b = rng.below(16);
-    let n = *rng.pick(&[3637u64, 3638, 3639, 3640, 3700, 7279, 7280]);
+    // the first two programs sit exactly on the first / second boundary and follow a fixed script
+    let n = match idx {
+        0 => 3639,
+        1 => 7280,
+        _ => *rng.pick(&[3637u64, 3638, 3639, 3639, 3640, 3700, 7279, 7280, 7280]),
+    };
     let extra = 6u64;
     let mut keys = Map::new();
     for i in 0..n + extra {
@@ -520,8 +525,28 @@ fn big_index(rng: &mut Rng) -> Value {
     }
     let locs: Map<String, Value> = LOCS.iter().map(|(a, b)| ((*a).to_string(), json!(b))).collect();
     let mut ops = vec![json!({"op": "bulk", "pre": "q", "from": 0, "n": n, "alt": 0, "loc": "L1"})];
-    // leave the bulk in the sorted section or partly in the update section
-    ops.push(if rng.chance(1, 2) { json!({"op": "flush", "b": b}) } else { json!({"op": "save"}) });
+    if idx < 2 {
+        // exactly n sorted entries plus a non-empty update section in the saved file, several times
+        let new = format!("q{n}");
+        let old = format!("q{}", rng.below(n));
+        let old2 = format!("q{}", rng.below(n));
+        ops.extend([
+            json!({"op": "flush", "b": b}),
+            json!({"op": "reload"}),
+            json!({"op": "update", "k": old, "alt": 1, "loc": "L0"}),
+            json!({"op": "save"}),
+            json!({"op": "reload"}),
+            json!({"op": "add", "k": new, "alt": 0, "loc": "L6"}),
+            json!({"op": "remove", "k": old2, "alt": 0}),
+            json!({"op": "save"}),
+            json!({"op": "reload"}),
+            json!({"op": "flush", "b": b}),
+            json!({"op": "reload"}),
+        ]);
+        return json!({"sys": "index", "keys": keys, "locs": locs, "ops": ops});
+    }
+    // leave the bulk in the sorted section (mostly) or partly in the update section
+    ops.push(if rng.chance(3, 4) { json!({"op": "flush", "b": b}) } else { json!({"op": "save"}) });
     ops.push(json!({"op": "reload"}));
     for _ in 0..12 {
         let old = format!("q{}", rng.below(n));
@@ -531,9 +556,9 @@ fn big_index(rng: &mut Rng) -> Value {
         ops.push(match rng.below(10) {
             0..=1 => json!({"op": "add", "k": new, "alt": alt, "loc": loc}),
             2..=3 => json!({"op": "update", "k": old, "alt": alt, "loc": loc}),
-            4..=5 => json!({"op": "remove", "k": old, "alt": alt}),
-            6 => json!({"op": "flush", "b": b}),
-            7 => json!({"op": "save"}),
+            4 => json!({"op": "remove", "k": old, "alt": alt}),
+            5 => json!({"op": "flush", "b": b}),
+            6..=7 => json!({"op": "save"}),
             _ => json!({"op": "reload"}),
         });
     }
@@ -600,8 +625,8 @@ fn main() {
             let p = random_index(&mut rng, longlen, 0);
             push(p, &mut programs);
         }
-        for _ in 0..arg_u64(&args, "--big", 0) {
-            let p = big_index(&mut rng);
+        for i in 0..arg_u64(&args, "--big", 0) {
+            let p = big_index(&mut rng, i);
             push(p, &mut programs);
         }
         for _ in 0..nri {
